@@ -43,6 +43,7 @@ import (
 
 	"verifharness/cosign"
 	"verifharness/dmg"
+	"verifharness/xar"
 	"verifharness/macho"
 	"verifharness/magic"
 	"verifharness/pe"
@@ -682,6 +683,8 @@ func opFunc(fields []string) (func() string, int) {
 			n = len(fields[2]) / 2
 		}
 		return func() string { return dmg.Handle(fields[1:]) }, n
+	case "XAR":
+		return func() string { return xar.Handle(fields[1:]) }, len(fields[min(2, len(fields)-1)]) / 2
 	case "PGP":
 		return func() string { return pgp.Handle(fields[1:]) }, pgp.InputLen(fields[1:])
 	case "MAGIC":
